@@ -308,6 +308,7 @@ func runC16(r *simrt.Run) {
 	}
 	cfg.Faults["month_jump"] = false // slow-chain weeks add nothing here and cost many blocks
 	s := NewSim(r, cfg)
+	s.HaltSigPrefix = "x/epochstorage/" // a panic inside epoch-start processing itself is this property's subject
 	st := c16Arm(s)
 	// A halt of the chain is reported by C37 only, with one narrow exception that is this property's
 	// own subject: epoch-start processing giving up because the earliest epoch in memory has no
